@@ -275,6 +275,10 @@ func genReq(rt *rapid.T, l string, faulty bool) Req {
 	switch {
 	case strings.HasPrefix(r.Kind, "prom"):
 		r.Query = rapid.SampledFrom(promQueries).Draw(rt, l+".pq")
+		if r.Kind == "prom_series" && rapid.IntRange(0, 3).Draw(rt, l+".psel") != 0 {
+			// the series endpoint takes selectors
+			r.Query = rapid.SampledFrom([]string{`up`, `{__name__=~".+"}`, `x{a=~"b.*"}`, `http_requests_total{job="a"}`}).Draw(rt, l+".ps")
+		}
 		r.Start, r.End, r.Time = num("start", "946684800"), num("end", "946684860"), num("time", "946684860")
 		// evaluation instants start + k*step, also below one second
 		r.Step = rapid.SampledFrom([]string{"15", "15", "1", "0.5", "0.25", "250ms"}).Draw(rt, l+".pstep")
@@ -287,6 +291,10 @@ func genReq(rt *rapid.T, l string, faulty bool) Req {
 		r.Name = rapid.SampledFrom([]string{"0102030405060708090a0b0c0d0e0f10", "01", "zz", "", strings.Repeat("ab", 40), "0102030405060708090a0b0c0d0e0f1"}).Draw(rt, l+".tid")
 	default:
 		r.Query = genLogQL(rt, l+".q")
+		if (r.Kind == "render_diff" || strings.HasPrefix(r.Kind, "prof")) && rapid.IntRange(0, 3).Draw(rt, l+".profsel") != 0 {
+			// profile queries are a type id plus a stream selector
+			r.Query = rapid.SampledFrom([]string{`{service_name="x"}`, `{service_name="x", env=~"p.*"}`, `{}`, `{a!="b"}`}).Draw(rt, l+".profq")
+		}
 		r.Start, r.End, r.Time = num("start", "946684800000000000"), num("end", "946684860000000000"), num("time", "946684860000000000")
 		r.Step = "5"
 		r.Name = rapid.SampledFrom([]string{"app", "series", "a b", "x'y\\", ""}).Draw(rt, l+".lname")
